@@ -388,7 +388,7 @@ Theorem statements_closed c uuids d pw gen reqs r :
     /\ header_text (version c) (if gen then hd_error rest else None) = OK (c_header r)
     /\ negb (close_elements c) && (200 <=? version c) = false.
 Proof.
-  unfold request_statements. intros H. inv_ok.
+  unfold request_statements. intros H. inv_ok. unfold statements_tail in H. inv_ok.
   match goal with H : wrap_groups _ _ _ = OK _ |- _ => rename H into HW end.
   rewrite groups_closed in HW. cbn [kblocks flat_map] in HW.
   match goal with x : (list (msgset * list etree) * list text)%type |- _ => destruct x as [res uu'] end. cbn [fst snd] in *.
@@ -657,4 +657,54 @@ Lemma serialize_refuses c ov oc nf body :
 Proof.
   intros C V. unfold serialize. destruct (header_text (dflt ov (version c)) nf); [|reflexivity].
   cbn [bind]. rewrite C. apply N.leb_le in V. rewrite V. reflexivity.
+Qed.
+
+(* ------------------------------------------------------------------ subclass-named requests with the stock names *)
+Lemma insert_map {A B} (g : A -> B) (leA : A -> A -> bool) (leB : B -> B -> bool) :
+  (forall a b, leB (g a) (g b) = leA a b) -> forall x l, insert leB (g x) (map g l) = map g (insert leA x l).
+Proof. intros E x l. induction l as [|y l IH]; [reflexivity|]. cbn [map insert]. rewrite E. destruct (leA x y); [reflexivity|]. cbn [map]. rewrite IH. reflexivity. Qed.
+Lemma isort_map {A B} (g : A -> B) (leA : A -> A -> bool) (leB : B -> B -> bool) :
+  (forall a b, leB (g a) (g b) = leA a b) -> forall l, isort leB (map g l) = map g (isort leA l).
+Proof. intros E l. induction l as [|x l IH]; [reflexivity|]. cbn [map isort]. rewrite IH. apply insert_map, E. Qed.
+Lemma groupby_map {A B K K'} (g : A -> B) (kf : K -> K') keqb keqb' (key : A -> K) (key' : B -> K') :
+  (forall x, key' (g x) = kf (key x)) -> (forall a b, keqb' (kf a) (kf b) = keqb a b) ->
+  forall l, groupby keqb' key' (map g l) = map (fun kg => (kf (fst kg), map g (snd kg))) (groupby keqb key l).
+Proof.
+  intros E1 E2 l. induction l as [|x l IH]; [reflexivity|]. cbn [map groupby]. rewrite IH.
+  destruct (groupby keqb key l) as [|[k gr] gs]; cbn [map fst snd]; [rewrite E1; reflexivity|].
+  rewrite E1, E2. destruct (keqb (key x) k); reflexivity.
+Qed.
+(** every group of groupby is non-empty and keyed by its first member *)
+Lemma groupby_heads {A K} keqb (key : A -> K) : (forall a b, keqb a b = true <-> a = b) ->
+  forall l, Forall (fun kg => match snd kg with x :: _ => key x = fst kg | [] => False end) (groupby keqb key l).
+Proof.
+  intros Q l. induction l as [|x l IH]; [constructor|]. cbn [groupby]. destruct (groupby keqb key l) as [|[k gr] gs].
+  - repeat constructor.
+  - inversion IH; subst. destruct (keqb (key x) k) eqn:E.
+    + constructor; [cbn [fst snd]; apply Q in E; exact E|assumption].
+    + constructor; [reflexivity|]. constructor; assumption.
+Qed.
+
+Definition tag_stock (r : rq) : named := (kind_name (kind_of r), r).
+Lemma kind_name_inj a b : text_eqb (kind_name a) (kind_name b) = kind_eqb a b.
+Proof. destruct a, b; vm_compute; reflexivity. Qed.
+Lemma wrap_named_stock c gs : forall uu,
+  Forall (fun kg : kind * list rq => match snd kg with x :: _ => kind_of x = fst kg | [] => False end) gs ->
+  wrap_named_groups c (map (fun kg => (kind_name (fst kg), map tag_stock (snd kg))) gs) uu = wrap_groups c gs uu.
+Proof.
+  induction gs as [|[k rqs] gs IH]; intros uu F; [reflexivity|]. inversion F; subst. cbn [fst snd] in *.
+  cbn [map wrap_named_groups wrap_groups fst snd]. destruct rqs as [|x rqs]; [contradiction|]. cbn [map tag_stock snd].
+  change (x :: map snd (map tag_stock rqs)) with (map snd (map tag_stock (x :: rqs))).
+  rewrite map_map. cbn [tag_stock snd]. rewrite map_id. rewrite H1.
+  destruct (wrap_all c (x :: rqs) uu) as [ws|e]; [|reflexivity]. cbn [bind]. rewrite IH by assumption. reflexivity.
+Qed.
+(** with the stock class names the general composition is [request_statements]: its theorems are the stock case of the model
+    the subclass cases are run through *)
+Theorem named_stock c uuids d pw gen reqs :
+  request_statements_named c uuids d pw gen (map tag_stock reqs) = request_statements c uuids d pw gen reqs.
+Proof.
+  unfold request_statements_named, request_statements.
+  rewrite (isort_map tag_stock kind_leb name_leb) by reflexivity.
+  rewrite (groupby_map tag_stock kind_name kind_eqb text_eqb kind_of fst) by (reflexivity || apply kind_name_inj).
+  rewrite wrap_named_stock by (apply groupby_heads, kind_eqb_eq). reflexivity.
 Qed.
